@@ -425,6 +425,7 @@ fn run_case(c: &Value, k: &Keys) -> Value {
         ("none", [0; 32], [0; 64])
     };
     let mut nmut: u64 = 0;
+    let mut njson: u64 = 0;
     if base != "none" {
         let base_ev = lay_out(&f, &base_id, &base_sig);
         let mut try_ev = |name: String, ev: OwnedEvent, nver: &mut u64, bad: &mut Vec<Value>| {
@@ -442,6 +443,46 @@ fn run_case(c: &Value, k: &Keys) -> Value {
             let mut id = base_id;
             id[b / 8] ^= 1 << (b % 8);
             try_ev(format!("id_bit:{}", b), lay_out(&f, &id, &base_sig), &mut nver, &mut bad);
+        }
+        // ids that differ from the hash in SEVERAL places chosen so that a folded comparison (xor / sum of the byte
+        // differences, first or last bytes only, a comparison of sorted or reversed bytes) would not notice: the same bit
+        // flipped in two bytes, +1 / -1 in two bytes, two unequal bytes exchanged, the id reversed; each with the original
+        // signature and with a valid signature of the wrong id
+        {
+            let mut wrong: Vec<(String, [u8; 32])> = vec![];
+            let pairs: Vec<(usize, usize)> = if full {
+                (0..32).flat_map(|a| ((a + 1)..32).map(move |b| (a, b))).collect()
+            } else {
+                vec![(0, 31), (i % 32, (i + 1) % 32), (i % 32, (i * 7 + 13) % 32), (15, 16), ((i / 32) % 32, 31 - (i % 31))]
+            };
+            for (a, b) in pairs {
+                if a == b {
+                    continue;
+                }
+                let bit = 1u8 << ((i + a) % 8);
+                let mut id = base_id;
+                id[a] ^= bit;
+                id[b] ^= bit;
+                wrong.push((format!("id_same_bit_in_two_bytes:{},{}", a, b), id));
+                let mut id = base_id;
+                id[a] = id[a].wrapping_add(1);
+                id[b] = id[b].wrapping_sub(1);
+                wrong.push((format!("id_plus_minus_one:{},{}", a, b), id));
+                if base_id[a] != base_id[b] {
+                    let mut id = base_id;
+                    id.swap(a, b);
+                    wrong.push((format!("id_bytes_exchanged:{},{}", a, b), id));
+                }
+            }
+            let mut id = base_id;
+            id.reverse();
+            wrong.push(("id_reversed".into(), id));
+            for (n, (name, id)) in wrong.into_iter().enumerate() {
+                try_ev(name.clone(), lay_out(&f, &id, &base_sig), &mut nver, &mut bad);
+                if (full && n % 16 == i % 16) || (!full && i % 4 == 0) {
+                    try_ev(format!("{}:resigned", name), lay_out(&f, &id, &sign(kp, &id)), &mut nver, &mut bad);
+                }
+            }
         }
         for b in bit_positions(256, full, i, 4, 17) {
             let mut g = f.clone();
@@ -473,6 +514,34 @@ fn run_case(c: &Value, k: &Keys) -> Value {
             let gid = sha(serde_text(&g).as_bytes());
             try_ev("id_and_sig_of_sibling_event".into(), lay_out(&f, &gid, &sign(kp, &gid)), &mut nver, &mut bad);
         }
+        // the verifying event as a JSON TEXT whose numerals name another event: kind + 65 536 (+ 131 072) and created_at
+        // + 2^64 wrap to the original values in a u16 / u64; a text that parses AND verifies is an accepted forgery of the
+        // (kind, created_at) the text states.  A refusal by the parser is the expected outcome.
+        {
+            let num_variants: Vec<(String, String, String)> = vec![
+                ("json_kind_plus_65536".into(), (f.kind as u64 + 65536).to_string(), f.ts.to_string()),
+                ("json_kind_plus_131072".into(), (f.kind as u64 + 131072).to_string(), f.ts.to_string()),
+                ("json_created_at_plus_2^64".into(), f.kind.to_string(), (f.ts as u128 + (1u128 << 64)).to_string()),
+                ("json_kind_leading_digits".into(), format!("65536{}", f.kind), f.ts.to_string()),
+            ];
+            for (name, kind_txt, ts_txt) in num_variants {
+                let text = format!(
+                    "{{\"id\":\"{}\",\"pubkey\":\"{}\",\"created_at\":{},\"kind\":{},\"tags\":{},\"content\":{},\"sig\":\"{}\"}}",
+                    vh::hex(&base_id), vh::hex(&f.pk), ts_txt, kind_txt, serde_json::to_string(&f.tags).expect("tags"),
+                    serde_json::to_string(&f.content).expect("content"), vh::hex(&base_sig));
+                njson += 1;
+                let mut buf = vec![0u8; text.len() + 4096];
+                // (a panic of the parser is C03's business: here it counts as "not accepted")
+                let o = match catch_unwind(AssertUnwindSafe(|| Event::from_json(text.as_bytes(), &mut buf).map(|(_, e)| e.verify()))) {
+                    Ok(Ok(Ok(()))) => "ok".to_string(),
+                    _ => "err:refused".to_string(),
+                };
+                nver += 1;
+                if !o.starts_with("err:") {
+                    bad.push(json!({"name": name, "outcome": o, "event": text}));
+                }
+            }
+        }
         // ids that hash a non-canonical text of the same fields, validly signed
         if let Some(alts) = c.get("alts").and_then(|x| x.as_array()) {
             for a in alts {
@@ -491,7 +560,7 @@ fn run_case(c: &Value, k: &Keys) -> Value {
         "i": i, "t": "case", "sign": sign_out, "id_impl": id_impl, "id_spec": vh::hex(&id_spec),
         "serde_same": serde_same, "serde_text": if serde_same { Value::Null } else { json!(stext) },
         "ctor_same": ctor_same, "signed_fields_same": signed_fields_same,
-        "v_signed": v_signed, "v_indep": v_indep, "base": base, "n_mut": nmut, "n_verify": nver, "bad": bad,
+        "v_signed": v_signed, "v_indep": v_indep, "base": base, "n_mut": nmut + njson, "n_verify": nver, "bad": bad,
     })
 }
 
